@@ -20,7 +20,7 @@ NCPU = os.cpu_count() or 4
 SAN_ENV = {
     "ASAN_OPTIONS": "halt_on_error=1:abort_on_error=0:detect_leaks=0:exitcode=98:allocator_may_return_null=1:detect_stack_use_after_return=0",
     "UBSAN_OPTIONS": "print_stacktrace=1:halt_on_error=1:exitcode=98",
-    "TSAN_OPTIONS": "halt_on_error=1:exitcode=98:second_deadlock_stack=1:history_size=4",
+    "TSAN_OPTIONS": "halt_on_error=1:exitcode=98:second_deadlock_stack=1:history_size=4:suppressions=" + os.path.join(os.path.dirname(os.path.dirname(os.path.abspath(__file__))), "tsan.supp"),
     "LSAN_OPTIONS": "exitcode=98",
 }
 
